@@ -56,6 +56,8 @@ def build_value(ty: Ty, mv, memo=None):
     if isinstance(ty, Rec):
         fields = {k: build_value(t, mv.get(k), memo) for k, t in ty.fields.items()} if isinstance(mv, dict) else {}
         if ty.as_dict:
+            if getattr(ty, "optkeys", False):
+                return {k: v for k, v in fields.items() if v is not None}
             return fields
         if ty.pycls:
             _ensure_repo_on_path()
@@ -78,6 +80,9 @@ def build_value(ty: Ty, mv, memo=None):
                     pass
             return obj
         return _types.SimpleNamespace(**fields)
+    from .ty import Assoc
+    if isinstance(ty, Assoc):
+        return {k: build_value(ty.valty, v, memo) for k, v in (mv or [])}
     if isinstance(ty, SeqOf):
         return [build_value(ty.elem, x, memo) for x in (mv or [])]
     if isinstance(ty, TupleOf):
@@ -128,6 +133,10 @@ def replay(c: api.Contract, inputs: dict):
             ok = None
             out["requires_error"] = repr(e)
         out["requires_holds"] = ok
+        if ok is None:
+            out["confirmed"] = False
+            out["reason"] = "precondition could not be evaluated natively on the model (over-abstraction)"
+            return out
         if ok is False:
             out["confirmed"] = False
             out["reason"] = "model does not satisfy the precondition natively (over-abstraction)"
@@ -204,3 +213,19 @@ def _show(v, depth=0):
     if hasattr(v, "__dict__"):
         return {"__class__": type(v).__name__, **{k: _show(x, depth + 1) for k, x in list(vars(v).items())[:20] if not k.startswith("__")}}
     return repr(v)
+
+
+def replay_lemma(lem, inputs: dict):
+    """Run the lemma natively (call() runs the real functions); confirmed iff it evaluates to False."""
+    args = {}
+    for n in inspect.signature(lem.fn).parameters:
+        args[n] = build_value(lem.types[n], inputs.get(n)) if n in lem.types else inputs.get(n)
+    out = {"lemma": lem.name, "args": {k: _show(v) for k, v in args.items()}}
+    try:
+        r = lem.fn(**args)
+        out["result"] = bool(r)
+        out["confirmed"] = (r is False) or (not r)
+    except BaseException as e:  # noqa
+        out["raised"] = repr(e)[:300]
+        out["confirmed"] = False
+    return out
